@@ -60,7 +60,14 @@ for the configurations without STARTTLS.  (3) seeded random walks up to 12 units
 also tries from every abstract state).  (4) pipelined strata: a closing verdict (421 / 221 / raise / QUIT / a line the
 server aborts on) and the non-closing rejections at every command position of two template sessions x framings
 {burst, 2, 3, 5, stop-and-wait}; every symbol with lines before and behind it in one segment; all pairs over a
-reduced alphabet in one burst; random walks in a random pipelined framing.
+reduced alphabet in one burst; random walks in a random pipelined framing.  (5) CONCURRENT sessions: 2..3 sessions
+on Server objects of one class and one extension set, each with its own handlers object and its own scripted socket,
+each in its own greenlet; a socket read with no data ready really blocks its greenlet (Gate) and the feeder hands out
+turns (greeting, then one stop-and-wait unit per turn) in a scripted order: every interleaving of three pairs of short
+sessions, seeded random orders for sessions drawn from a pool (custom commands editing their reply, 421/221, handler
+failure, rejected messages, AUTH, STARTTLS) and random walks.  Oracle: the per-session automaton as usual, and each
+session's reply stream (bytes), step/callback trace, exit, close code and final flags equal those of the same session
+run alone ('concurrent/<field>-differs-from-session-alone/<command family>').
 """
 import re
 import base64
@@ -68,6 +75,7 @@ import random
 import collections
 
 import gevent
+import gevent.event
 from gevent import socket as gsocket, ssl as gssl
 
 from vf.core import watchdog_call
@@ -92,7 +100,8 @@ LEVEL_TEXT = ('Real Server (+ real SmtpSession in half of the configurations) dr
               'alphabet symbol tried from every abstract state; all symbol sequences of length 2 (thorough: 3, see RULE) after '
               '{no prefix, EHLO, EHLO MAIL RCPT, EHLO MAIL<> RCPT}; seeded random walks to 12 units; pipelined strata (closing verdict / '
               'handler failure at every position of template sessions x 5 framings, every symbol inside a segment, pairs in one burst, '
-              'pipelined random walks). Exhaustive only for the abstract graph (monitor '
+              'pipelined random walks); 2-3 concurrent sessions interleaved unit by unit, compared with each session run alone '
+              '(distinct_observed.interleaving counts the distinct executed turn orders). Exhaustive only for the abstract graph (monitor '
               '"bfs-closure-reached" counts closed configurations; one witness prefix per abstract state) and for the '
               'bounded-depth enumeration when the generator was not cut; everything else is sampling. Held = held on '
               'the sequences run.')
@@ -112,11 +121,15 @@ RULE = ('case = (extension set in {default,SIZE,STARTTLS,AUTH,ALL}, handler kind
         '{stop-and-wait, burst, 2-, 3-, 5-line groups}. Generated by (1) BFS closure of the abstract '
         'state graph, (2) all sequences of length 2 after {nothing, EHLO, EHLO MAIL RCPT, EHLO MAIL<> RCPT, and EHLO STARTTLS EHLO where offered} (thorough: also length 3 over a reduced 31-symbol alphabet after the same prefixes and over the full alphabet after EHLO for configurations without STARTTLS), (3) seeded random walks up to 12 units, (4) pipelined strata: closing / non-closing verdict at every position of 2 template sessions x 5 framings, '
         'every symbol inside one segment after 3-4 prefixes, all pairs over a reduced alphabet in one burst (quick: a quarter of the configurations, rotating with the seed), '
-        'random walks in a random pipelined framing. '
+        'random walks in a random pipelined framing, (5) 2-3 concurrent sessions (own greenlet, handlers object and socket each; reads block when no data is ready) '
+        'with the feeder interleaving them unit by unit: every interleaving of 3 pairs of short sessions, seeded random orders over a pool of 15 sessions and random walks; '
+        'each must equal the same session run alone. '
         'One case = one session = one evaluation. non-trivial & distinct = distinct (config, sequence) that reaches an '
         'open transaction (MAIL accepted) or contains a rejected command followed by a command that depends on it '
         '(EHLO/HELO -> MAIL, MAIL -> RCPT/DATA, RCPT -> DATA)')
-ASSUMPTIONS = ['pipelined client is RFC 2920-conformant in one respect: nothing is sent behind DATA, AUTH (and its responses) or STARTTLS '
+ASSUMPTIONS = ['concurrent stratum: greenlets switch only where the server waits for input (scripted sockets never block in send), so sessions '
+               'interleave at unit granularity (and inside real TLS handshakes); shared state that lives only within one command cannot show',
+               'pipelined client is RFC 2920-conformant in one respect: nothing is sent behind DATA, AUTH (and its responses) or STARTTLS '
                'before their reply was seen (bytes behind those are C05/C08/C09\'s subject); anything else may share a segment',
                'in a pipelined segment callbacks are attributed to a line through Server.io.recv_buffer (read-only) and replies by '
                'their position in the stream; implementation flags are compared with the automaton only at the end of a segment',
@@ -132,7 +145,8 @@ ASSUMPTIONS = ['pipelined client is RFC 2920-conformant in one respect: nothing 
                'TLS: self-signed certificate, client does not verify it']
 REQUIRED_HITS = ['order-oracle', 'reply-count-oracle', 'reset-oracle', 'close-code-oracle', 'handoff-envelope-oracle',
                  'flags-invariant', 'bfs-closure-reached', 'tls-handshake-performed', 'auth-334-exchange',
-                 'pipelined-reply-stream-oracle', 'pipelined-close-mid-group', 'handler-exception-oracle']
+                 'pipelined-reply-stream-oracle', 'pipelined-close-mid-group', 'handler-exception-oracle',
+                 'concurrent-sessions-oracle']
 SHARDS = {'quick': 16, 'thorough': 16}
 BUDGET = {'quick': 58, 'thorough': 800}
 EXHAUSTIVE = {'quick': False, 'thorough': False}
@@ -379,6 +393,8 @@ class Run(object):
         # log since the previous recv boundary
         self.out, self.cbs, self.events = [], [], []
         self.total_out = 0
+        self.stream = []          # every byte written to the client, whole session
+        self.gate = None          # concurrent stratum: the session runs only when the feeder gives it a turn
         # driver: the group of (unit index, stage) slots in flight, the stream offset at which each one ends
         self.group, self.ends, self.fed_total, self.next_pos, self.ngroups = [], [], 0, 0, 0
         self.multi = False        # the group being judged holds more than one line
@@ -456,6 +472,7 @@ class Run(object):
 
     def sent(self, data):
         self.out.append(data)
+        self.stream.append(data)
         self.total_out += len(data)
 
     def event(self, name, detail=None):
@@ -1188,6 +1205,8 @@ class PairWire(object):
         if self.got < self.put:
             return       # not a boundary: the server has not yet read everything the client sent (segment > one read)
         self.drain()
+        if self.run.gate is not None:
+            self.run.gate.wait_turn()
         data = self.run.boundary()
         if data is None:
             self.close_client()
@@ -1215,6 +1234,8 @@ def script_wire(run):
     def on_recv(ss):
         if ss.segments:
             return
+        if run.gate is not None:
+            run.gate.wait_turn()      # no data ready: this greenlet really blocks until the feeder picks the session
         data = run.boundary()
         if data is not None:
             ss.feed(data)
@@ -1229,7 +1250,8 @@ def script_wire(run):
 _SASL = {}
 
 
-def run_session(ext, kind, banner, syms, framing=1):
+def build_session(ext, kind, banner, syms, framing=1):
+    """-> (run, wire or None, go): a fresh Server + handlers object + scripted socket; go() runs handle()."""
     run = Run(ext, kind, banner, syms, framing)
     feats = EXT_FEATURES[ext]
     wire = None
@@ -1265,6 +1287,11 @@ def run_session(ext, kind, banner, syms, framing=1):
             return 'connection-lost'
         except Exception as e:        # the server re-raises handler/decoding errors after its 4xx/5xx reply
             return 'exception:' + type(e).__name__
+    return run, wire, go
+
+
+def run_session(ext, kind, banner, syms, framing=1):
+    run, wire, go = build_session(ext, kind, banner, syms, framing)
     try:
         if wire is None:
             how = go()
@@ -1282,6 +1309,110 @@ def run_session(ext, kind, banner, syms, framing=1):
     else:
         run.finish(how)
     return run
+
+
+# ---------------------------------------------------------------- concurrent sessions
+
+class Gate(object):
+    """One per concurrent session.  The session's greenlet blocks in wait_turn() whenever its server asks for input
+    and none is ready (and before handle() starts); the feeder wakes exactly one session at a time and waits until
+    that session blocks again or is over.  So between two turns of a session any number of turns of the others run."""
+
+    def __init__(self):
+        self.turn, self.idle, self.done = gevent.event.Event(), gevent.event.Event(), False
+
+    def wait_turn(self):
+        self.idle.set()
+        self.turn.wait()
+        self.turn.clear()
+
+
+def run_concurrent(ext, specs, schedule):
+    """specs: [(kind, banner, syms)], all on Server objects of one class with one extension set, each with its own
+    handlers object and its own scripted socket.  schedule: session indexes, one per turn (a turn of a session that is
+    already over is skipped; when the schedule is used up the rest runs round-robin).
+    -> (runs, executed turn order, problem or None)."""
+    built = [build_session(ext, k, b, y) for k, b, y in specs]
+    gates = [Gate() for _ in built]
+    for (run, wire, go), gate in zip(built, gates):
+        run.gate = gate
+    results = [None] * len(built)
+
+    def body(i):
+        run, wire, go = built[i]
+        try:
+            gates[i].wait_turn()          # the greeting is a turn like any other
+            results[i] = go()
+        finally:
+            gates[i].done = True
+            gates[i].idle.set()
+    lets = [gevent.spawn(body, i) for i in range(len(built))]
+    order, problem = [], None
+
+    def give(i):
+        g = gates[i]
+        if g.done:
+            return True
+        if not g.idle.wait(30):
+            return False
+        if g.done:
+            return True
+        g.idle.clear()
+        order.append(i)
+        g.turn.set()
+        return g.idle.wait(30)
+    try:
+        todo = list(schedule)
+        rr = 0
+        while not all(g.done for g in gates) and len(order) < 2000:
+            if todo:
+                i = todo.pop(0)
+            else:
+                i, rr = rr % len(gates), rr + 1
+            if not give(i):
+                problem = 'watchdog (a concurrent session did not come back within 30 s)'
+                break
+    finally:
+        for gl in lets:
+            if not gl.dead:
+                gl.kill(block=True, timeout=5)
+        for run, wire, go in built:
+            if wire is not None:
+                if wire.broken and problem is None:
+                    problem = 'watchdog: ' + wire.broken
+                wire.close()
+    runs = []
+    for i, (run, wire, go) in enumerate(built):
+        if results[i] is None:
+            problem = problem or 'a concurrent session never finished'
+            run.exit = 'watchdog'
+        else:
+            run.finish(results[i])
+        runs.append(run)
+    return runs, order, problem
+
+
+def summary(run):
+    """Everything observable of one session at the public boundary (+ the read-only flags at its end)."""
+    flags = run.impl_flags() if run.srv is not None else None
+    return {'exit': run.exit, 'ended': (run.ended, run.ended_by),
+            'steps': [(st['unit'], st['stage'], tuple(st['replies']), tuple(tuple(c) for c in st['callbacks']),
+                       tuple(st['events'])) for st in run.steps],
+            'reply-stream': b''.join(run.stream), 'final-flags': (flags, run.env_shape()),
+            'automaton-verdict': tuple(v[0] for v in run.viol)}
+
+
+_SOLO = {}
+
+
+def solo_summary(ext, kind, banner, syms):
+    key = (ext, kind, banner, tuple(syms))
+    if key not in _SOLO:
+        if len(_SOLO) > 4000:
+            _SOLO.clear()
+        run = run_session(ext, kind, banner, list(syms))
+        _SOLO[key] = (summary(run), len(run.steps) + 1)      # turns = greeting + every boundary incl. the last read
+    return _SOLO[key]
 
 
 # ---------------------------------------------------------------- mechanisms
@@ -1450,6 +1581,74 @@ def share_table(tier, nshards):
     return table
 
 
+# concurrent stratum: sessions that must not influence each other (different sequences, different verdicts)
+CONC_POOL = [
+    ['EHLO', 'MAIL', 'RCPT', 'DATA', 'QUIT'],
+    ['EHLO', 'RCPT', 'DATA', 'MAIL/550', 'RCPT'],
+    ['HELO', 'MAILnull', 'RCPTpm', 'RSET', 'RCPT', 'DATA'],
+    ['EHLO', 'XCMD/421'],
+    ['EHLO', 'XCMD', 'UNK', 'XCMD/550', 'EMPTY', 'XCMD/asis', 'STARTTLS'],
+    ['EHLO', 'MAIL', 'RCPT/550', 'DATA', 'RCPT', 'DATA/ok/550', 'RCPT', 'DATA'],
+    ['EHLO', 'MAILsize', 'RCPT', 'DATAbig', 'MAIL', 'RCPT', 'DATA/ok/qfail', 'NOOP'],
+    ['EHLO', 'AUTH', 'MAIL', 'RCPT', 'DATA/ok/221'],
+    ['EHLO', 'STARTTLS', 'EHLO', 'AUTH', 'MAIL', 'RCPT', 'DATA', 'AUTH'],
+    ['EHLO', 'MAIL/421'],
+    ['EHLO', 'NOOP/raise'],
+    ['EHLO', 'MAIL', 'RCPT', 'RCPT', 'DATAempty', 'NOOP/450', 'QUIT/550', 'QUIT'],
+    ['EHLO', 'AUTHchal', 'AUTHlogin', 'MAIL', 'RCPT/421'],
+    ['EHLO', 'MAIL', 'EHLO', 'RCPT', 'MAIL', 'HELO', 'RCPT', 'STARTTLS', 'MAIL'],
+    ['MAIL', 'EHLO/550', 'MAIL', 'EHLO', 'MAIL/450', 'MAIL', 'RCPT', 'DATA/550', 'DATA'],
+]
+# every interleaving of these pairs (turn counts are measured by running each session alone)
+CONC_PAIRS = [(['EHLO', 'MAIL', 'RCPT', 'DATA'], ['EHLO', 'RCPT', 'DATA']),
+              (['EHLO', 'XCMD/550', 'UNK', 'NOOP'], ['EHLO', 'UNK', 'XCMD', 'UNK']),
+              (['EHLO', 'MAIL', 'RCPT/550', 'DATA'], ['EHLO', 'MAIL', 'RSET', 'RCPT'])]
+NCONC = {'quick': 2400, 'thorough': 40000}
+
+
+def merges(a, b):
+    """All interleavings of a turns of session 0 with b turns of session 1."""
+    if not a or not b:
+        yield [0] * a + [1] * b
+        return
+    for m in merges(a - 1, b):
+        yield [0] + m
+    for m in merges(a, b - 1):
+        yield [1] + m
+
+
+def gen_concurrent(tier, seed, shard, table):
+    n = 0
+    for ext, kinds, pairs in (('default', ('rec', 'session'), (0, 1, 2)), ('AUTH', ('session', 'rec'), (0, 1)),
+                              ('SIZE', ('rec', 'rec'), (2,)), ('ALL', ('session', 'session'), (0,))):
+        if ext == 'ALL' and tier != 'thorough':
+            continue              # real TLS sockets: thorough only (the seeded part below has some in quick)
+        for pi in pairs:
+            a, b = CONC_PAIRS[pi]
+            specs = [(kinds[0], 'ok', a), (kinds[1], 'ok', b)]
+            for sched in _pair_schedules(ext, specs):
+                if table[n % 100] == shard:
+                    yield {'mode': 'conc-all', 'ext': ext, 'sessions': [list(x) for x in specs], 'schedule': sched}
+                n += 1
+    rnd = random.Random('c07-conc-%d-%d' % (seed, shard))
+    for i in range(NCONC[tier] // max(1, len(set(table)))):
+        ext = rnd.choice(EXTS if rnd.random() < 0.25 else ['default', 'SIZE', 'AUTH'])
+        alpha = alphabet_for(ext, extra=True)
+        specs = []
+        for _ in range(rnd.choice((2, 2, 3))):
+            syms = list(rnd.choice(CONC_POOL)) if rnd.random() < 0.7 else ['EHLO'] + gen_walk(rnd, alpha)[:7]
+            specs.append((rnd.choice(KINDS), 'ok' if rnd.random() < 0.9 else rnd.choice(['450', '421', 'raise']), syms))
+        total = sum(len(y) * 2 + 3 for _, _, y in specs)
+        sched = [rnd.randrange(len(specs)) for _ in range(total)]
+        yield {'mode': 'conc-walk', 'ext': ext, 'sessions': [list(x) for x in specs], 'schedule': sched}
+
+
+def _pair_schedules(ext, specs):
+    ta = solo_summary(ext, *specs[0])[1]
+    tb = solo_summary(ext, *specs[1])[1]
+    return merges(ta, tb)
+
+
 def gen_cases(tier, seed, shard, nshards):
     mine = [c for i, c in enumerate(CONFIGS) if i % nshards == shard]
     for ext, kind in mine:
@@ -1460,6 +1659,9 @@ def gen_cases(tier, seed, shard, nshards):
     for i, c in enumerate(gen_pipelined(tier, seed)):
         if table[i % 100] == shard:
             yield c
+    # concurrent sessions
+    for c in gen_concurrent(tier, seed, shard, table):
+        yield c
     # seeded random walks: stop-and-wait, then pipelined
     rnd = random.Random('c07-%d-%d' % (seed, shard))
     for i in range((NWALKS[tier] + NPIPEWALKS[tier]) // nshards):
@@ -1509,7 +1711,56 @@ def gen_cases(tier, seed, shard, nshards):
 
 # ---------------------------------------------------------------- the check
 
+def run_conc_case(case, R):
+    ext, specs, schedule = case['ext'], [(k, b, list(y)) for k, b, y in case['sessions']], list(case['schedule'])
+    R.eval()
+    solos = [solo_summary(ext, k, b, y)[0] for k, b, y in specs]
+    runs, order, problem = run_concurrent(ext, specs, schedule)
+    R.count('sessions/' + case['mode'])
+    R.count('concurrent/sessions-run-together', len(specs))
+    if problem or any(so['exit'].startswith('watchdog') for so in solos):
+        R.inconclusive('concurrent: %s ext=%s' % (problem or 'solo watchdog', ext))
+        return
+    key = (ext, tuple((k, b, tuple(y)) for k, b, y in specs))
+    R.observe('interleaving', (key, tuple(order)))
+    # how finely were the sessions mixed: number of points where the turn passes to another session
+    R.count('concurrent/session-switches', sum(1 for a, b in zip(order, order[1:]) if a != b))
+    mid = False
+    for i, (run, solo) in enumerate(zip(runs, solos)):
+        R.hit('concurrent-sessions-oracle')
+        R.count('commands', run.commands)
+        for h, n in run.hits.items():
+            R.hit(h, n)
+        got = summary(run)
+        if run.nt_open:
+            mid = True
+        for field in ('reply-stream', 'steps', 'exit', 'ended', 'final-flags', 'automaton-verdict'):
+            if got[field] == solo[field]:
+                continue
+            where, what = '-', '%r != alone %r' % (got[field], solo[field])
+            if field in ('steps', 'reply-stream'):
+                a, b = got['steps'], solo['steps']
+                j = next((j for j in range(min(len(a), len(b))) if a[j] != b[j]), min(len(a), len(b)))
+                where = a[j][0] if j < len(a) else b[j][0] if j < len(b) else '<end>'
+                where = family(where) if where.split('/')[0] in BASES else where
+                what = ('at step %d: %r, alone: %r' % (j, a[j] if j < len(a) else None, b[j] if j < len(b) else None)
+                        if field == 'steps' or j < max(len(a), len(b)) else
+                        'same codes and callbacks, different reply text: %r, alone: %r'
+                        % (got[field][-300:], solo[field][-300:]))
+            R.violation('concurrent/%s-differs-from-session-alone/%s' % (field, where),
+                        'session %d of %d concurrent sessions (%s, %s): %s' % (i, len(specs), ext, specs[i][0], what),
+                        {'ext': ext, 'sessions': [list(x) for x in specs], 'schedule': schedule, 'executed_turns': order,
+                         'session': i, 'field': field, 'steps': run.steps, 'steps_alone': solo['steps'],
+                         'automaton_violations': [v[:2] for v in run.viol[:3]]})
+            break
+    if mid:
+        R.nontrivial(('conc', key, tuple(order)))
+        R.count('nontrivial/concurrent-with-open-transaction')
+
+
 def run_case(case, R):
+    if case.get('mode', '').startswith('conc'):
+        return run_conc_case(case, R)
     ext, kind, banner, syms = case['ext'], case['kind'], case['banner'], list(case['units'])
     mode = case.get('mode', 'seq')
     framing = case.get('framing', 1)
